@@ -71,12 +71,26 @@ CHECKS = {
         "Two designed corpora; order between a todo and a plain note under `priority` is not judged; matching set from the model over raw rows.",
         "§4 C09",
     ),
+    "C11": (
+        "model_checking",
+        "explicit-state BFS over edit/reindex/day-advance histories on a real directory with a predictive oracle fed by the previous raw index state",
+        "Breadth-first search (depth 3 from three initial states in quick; depth 5/4/4 in thorough) over 13 events; at every reindex transition the oracle predicts from the previous index rows and the current files exactly which first lines change and how (stamp inserted or replaced before the ZID, ZID inserted for new notes, every other byte identical), compares file bytes, requires index == recompiled files, and requires an immediately following reindex to change nothing. Both directions of the iff are decided on every explored history.",
+        "Current files are read through the real compiler (judged by C01); no hand-written stamps; time does not advance inside a command.",
+        "§4 C11",
+    ),
     "C12": (
         "exploration",
         "exhaustive small-scope enumeration of notes with a differential round-trip oracle (compile -> emit -> compile) on the real code",
         "Every note of the enumerated single-item family (16 kind/priority forms x 4 identity forms x 1..2 words over 14 words x up to 5 tails) and every ordered pair of the reduced item alphabet is compiled, emitted by the real Note.to_string(), wrapped in a page header, compiled again and compared (kind, ZID, body, own tags/links/properties, dates iff ZID, priority unless done/cancelled); ungrouped S note renderings of a real index under every ordering key list are compiled back and must contain exactly the selected notes in order, also through a refreshed .zoq page.",
         "The first compilation is only the reference for the second (C01 judges it against the written page); index corpus fixed per seed.",
         "§4 C12",
+    ),
+    "C13": (
+        "fault_enumeration",
+        "exhaustive crash-point enumeration with an effect-counting interposer (kill before every external effect; torn writes and crash-during-recovery pairs in the thorough tier)",
+        "For 4 scenarios the real command runs in a child whose file writes, renames, unlinks and SQL commits are counted; for every k the child is killed with os._exit immediately before effect k, the same command is re-run to completion, and the recovery invariant is checked: clean exit, raw index == recompiled files, every note has a ZID, no ZID on two notes, user text multiset unchanged, and files/index/meta equal to the uninterrupted run up to renaming of fresh ZIDs. Thorough adds 0% and 50% torn variants of every file write and all ordered pairs of crash points (crash again during recovery).",
+        "SQLite commit atomic (journal trusted); no cross-file write reordering or power loss; mkdir is not a crash point.",
+        "§4 C13",
     ),
     "C15": (
         "exploration",
